@@ -163,6 +163,43 @@ class Generator {
     return out;
   }
 
+  // Imperative constructors with 2 and 3 blocks: every sequence of {iterate, assign, guard} blocks in which the k-th declaring
+  // block introduces the k-th canonical variable; domains are the set-typed leaves or (up to `cap`) one-level terms over the
+  // variable declared last, assigned values and guards are one-level terms over the variable declared last; results are the
+  // tuple of all declared variables and (up to `cap`) one-level terms over the last variable.
+  template <class Sink>
+  void imperativeChains(Sink&& sink, size_t maxBlocks = 3, size_t cap = 5) const {
+    struct Frame { Env env; std::vector<Node> blocks; };
+    auto mentionsVar = [](const Node& n, const std::string& v) { std::function<bool(const Node&)> m = [&](const Node& x) { if (x.k == K::Local && x.text == v) return true; for (auto& c : x.ch) if (m(c)) return true; return false; }; return m(n); };
+    std::function<void(const Frame&)> rec = [&](const Frame& f) {
+      const Pool p = f.env.empty() ? level0(f.env) : bodies(f.env, 0);
+      const std::string last = f.env.empty() ? std::string() : f.env.back().first;
+      if (f.blocks.size() >= 2 && !f.env.empty()) {
+        if (f.env.size() >= 2) { std::vector<Node> vs; for (auto& e : f.env) vs.push_back(leaf(K::Local, e.first)); std::vector<Node> ch{ mk(K::Tuple, vs) }; for (auto& b : f.blocks) ch.push_back(b); sink(mk(K::Imperative, ch)); }
+        size_t k = 0;
+        for (auto& t : p.S) if (!t.type.logic && mentionsVar(t.node, last) && k++ < cap) { std::vector<Node> ch{ t.node }; for (auto& b : f.blocks) ch.push_back(b); sink(mk(K::Imperative, ch)); }
+      }
+      if (f.blocks.size() >= maxBlocks) return;
+      if (f.env.size() < varNames.size()) {
+        const std::string v = varNames[f.env.size()];
+        size_t kd = 0, ka = 0;
+        for (auto& d : p.S) {
+          if (d.type.logic) continue;
+          const bool overLast = !last.empty() && mentionsVar(d.node, last);
+          const bool leafTerm = d.node.ch.empty() && d.node.k != K::Local;
+          if (d.type.ty.isSet() && !d.type.ty.elem().isAny() && (leafTerm || (overLast && kd++ < cap))) {
+            Frame g = f; g.env.emplace_back(v, d.type.ty.elem()); g.blocks.push_back(mk(K::Iterate, { leaf(K::Local, v), d.node })); rec(g);
+          }
+          if (!d.type.ty.isAny() && ((f.env.empty() && leafTerm) || (overLast && ka++ < cap))) {
+            Frame g = f; g.env.emplace_back(v, d.type.ty); g.blocks.push_back(mk(K::Assign, { leaf(K::Local, v), d.node })); rec(g);
+          }
+        }
+      }
+      if (!f.env.empty()) { size_t k = 0; for (auto& g0 : p.L) if (mentionsVar(g0.node, last) && k++ < 3) { Frame g = f; g.blocks.push_back(g0.node); rec(g); } }
+    };
+    rec(Frame{});
+  }
+
   // The bounded space of closed expressions, streamed:  level 0 leaves, depth 1 over all leaves,
   // depth 2 over leaves + representatives of depth 1 (repsPerKey per (constructor, arity, type)).
   template <class Sink>
